@@ -122,6 +122,8 @@ theorem static_handle_redirect_same_site (cfg : C26.Cfg) (pat : C26.Pat) (target
   simp only [] at h
   split at h
   · cases h
+  split at h
+  · cases h
   · split at h
     · cases h
     · exact static_redirect_same_site _ _ _ _ _ h
@@ -235,14 +237,242 @@ theorem handleDeco_slash_same_site (pat : C26.Pat) (m : Method) (target : Str) (
   rcases h with h | h
   · split at h
     · cases h
+    split at h
+    · cases h
     · split at h
       · cases h
       · exact slash_redirect_same_site m _ _ st loc (Or.inl (ofOut_redirect _ _ _ h))
   · split at h
     · cases h
+    split at h
+    · cases h
     · split at h
       · cases h
       · exact slash_redirect_same_site m _ _ st loc (Or.inr (ofOut_redirect _ _ _ h))
+
+/-! ### the guard against an independent yardstick (review S2-a) -/
+
+theorem browserInput_id (loc : Str) (h : ∀ c ∈ loc, 0x20 < c) : Spec.browserInput loc = loc := by
+  unfold Spec.browserInput
+  have h1 : loc.dropWhile Spec.c0OrSpace = loc := by
+    cases loc with
+    | nil => rfl
+    | cons a t =>
+      have := h a (by simp)
+      rw [List.dropWhile_cons]
+      simp [Spec.c0OrSpace]
+      omega
+  rw [h1, List.filter_eq_self]
+  intro c hc
+  have := h c hc
+  simp [Spec.tabOrNewline]
+  omega
+
+/-- **sameSite_iff_onSameHost.**  On text without whitespace/control characters (all a request line can carry), the code's
+guard accepts exactly the values a browser resolves to a path on the same host (`Spec.onSameHost`: begins with `/`, no
+`scheme:` prefix, not `//`, `/\`, `\/`, `\\` at the start) -/
+theorem sameSite_iff_onSameHost (loc : Str) (h : ∀ c ∈ loc, 0x20 < c) : sameSitePath loc = Spec.onSameHost loc := by
+  rw [sameSitePath_eq]
+  unfold Spec.onSameHost Spec.offSite
+  rw [browserInput_id loc h]
+  rcases loc with _ | ⟨a, _ | ⟨b, t⟩⟩
+  · rfl
+  · rw [sameSite_single]
+    by_cases ha : a = 47
+    · subst ha; simp [Spec.hasScheme, Spec.protocolRelative, Spec.isAlpha]
+    · have ha' : (a == 47) = false := by simp [ha]
+      simp [ha']
+  · rw [sameSite_cons2]
+    by_cases ha : a = 47
+    · subst ha
+      cases hb1 : (b == 47) <;> cases hb2 : (b == 92) <;>
+        simp [Spec.hasScheme, Spec.protocolRelative, Spec.isAlpha, Spec.slashLike, bne, hb1, hb2]
+    · have ha' : (a == 47) = false := by simp [ha]
+      simp [ha']
+
+/-- without that side condition the guard is *not* adequate: `/<TAB>/host` passes it, a browser drops the tab -/
+theorem sameSite_tab_refuted : sameSitePath [47, 9, 47, 101] = true ∧ Spec.onSameHost [47, 9, 47, 101] = false := by decide
+
+theorem vchar_gt (c : Nat) (h : C26.vchar c = true) : 0x20 < c := by
+  simp [C26.vchar] at h
+  omega
+
+theorem validTarget_gt (t : Str) (h : C26.validTarget t = true) : ∀ c ∈ t, 0x20 < c := by
+  intro c hc
+  simp only [C26.validTarget, Bool.and_eq_true, List.all_eq_true] at h
+  exact vchar_gt c (h.2 c hc)
+
+theorem splitTarget_mem (t : Str) : (∀ c ∈ (splitTarget t).1, c ∈ t) ∧ (∀ c ∈ (splitTarget t).2, c ∈ t) := by
+  unfold splitTarget
+  constructor
+  · intro c hc; exact (List.takeWhile_sublist _).subset hc
+  · intro c hc
+    exact (List.dropWhile_sublist _).subset ((List.drop_sublist _ _).subset hc)
+
+theorem rstripSlash_mem (s : Str) : ∀ c ∈ rstripSlash s, c ∈ s := by
+  intro c hc
+  unfold rstripSlash at hc
+  rw [List.mem_reverse] at hc
+  exact List.mem_reverse.mp ((List.dropWhile_sublist _).subset hc)
+
+theorem withQuery_gt (uri q : Str) (hu : ∀ c ∈ uri, 0x20 < c) (hq : ∀ c ∈ q, 0x20 < c) : ∀ c ∈ withQuery uri q, 0x20 < c := by
+  intro c hc
+  unfold withQuery at hc
+  split at hc
+  · exact hu c hc
+  · simp only [List.mem_append, List.mem_cons] at hc
+    rcases hc with hc | hc | hc
+    · exact hu c hc
+    · omega
+    · exact hq c hc
+
+/-- the Location of a slash-decorator redirect consists of characters of the request path/query, `/` and `?` -/
+theorem slash_redirect_chars (m : Method) (path query : Str) (st : Nat) (loc : Str)
+    (hp : ∀ c ∈ path, 0x20 < c) (hq : ∀ c ∈ query, 0x20 < c)
+    (h : removeslash m path query = .redirect st loc ∨ addslash m path query = .redirect st loc) :
+    ∀ c ∈ loc, 0x20 < c := by
+  rcases h with h | h
+  · unfold removeslash at h
+    simp only [] at h
+    repeat' split at h
+    all_goals first | cases h | skip
+    exact withQuery_gt _ _ (fun c hc => hp c (rstripSlash_mem _ c hc)) hq
+  · unfold addslash at h
+    simp only [] at h
+    repeat' split at h
+    all_goals first | cases h | skip
+    refine withQuery_gt _ _ (fun c hc => ?_) hq
+    simp only [List.mem_append, List.mem_singleton] at hc
+    rcases hc with hc | hc
+    · exact hp c hc
+    · subst hc; simp [cSlash]
+
+theorem sameSite_onSameHost_of (loc : Str) (h : ∀ c ∈ loc, 0x20 < c) (hs : Spec.sameSite loc = true) :
+    Spec.onSameHost loc = true := by
+  rw [← sameSite_iff_onSameHost loc h, sameSitePath_eq]; exact hs
+
+/-- **handleDeco_slash_on_same_host.**  Whole request (request line, routing, argument decoding, decorator), no side
+condition: whenever `@removeslash` / `@addslash` answer with a redirect, a browser resolves its Location to a path on
+the same host (`Spec.onSameHost`, defined without reference to the code's guard). -/
+theorem handleDeco_slash_on_same_host (pat : C26.Pat) (m : Method) (target : Str) (st : Nat) (loc : Str)
+    (h : handleDeco .rm pat m target = .redirect st loc ∨ handleDeco .add pat m target = .redirect st loc) :
+    Spec.onSameHost loc = true := by
+  have hs := handleDeco_slash_same_site pat m target st loc h
+  refine sameSite_onSameHost_of loc ?_ hs
+  have hmem := splitTarget_mem target
+  unfold handleDeco at h
+  simp only [] at h
+  rcases h with h | h
+  · split at h
+    · cases h
+    rename_i hv
+    have hv' := validTarget_gt target (by simpa using hv)
+    split at h
+    · cases h
+    · split at h
+      · cases h
+      · exact slash_redirect_chars m _ _ st loc (fun c hc => hv' c (hmem.1 c hc)) (fun c hc => hv' c (hmem.2 c hc))
+          (Or.inl (ofOut_redirect _ _ _ h))
+  · split at h
+    · cases h
+    rename_i hv
+    have hv' := validTarget_gt target (by simpa using hv)
+    split at h
+    · cases h
+    · split at h
+      · cases h
+      · exact slash_redirect_chars m _ _ st loc (fun c hc => hv' c (hmem.1 c hc)) (fun c hc => hv' c (hmem.2 c hc))
+          (Or.inr (ofOut_redirect _ _ _ h))
+
+/-- **static_handle_on_same_host.**  The same for the static-directory redirect of a whole request. -/
+theorem static_handle_on_same_host (cfg : C26.Cfg) (pat : C26.Pat) (target : Str) (fs : Str → C26.Kind)
+    (loc : Str) (h : (C26.handle cfg pat target fs).1 = .redirect loc) : Spec.onSameHost loc = true := by
+  have hs := static_handle_redirect_same_site cfg pat target fs loc h
+  refine sameSite_onSameHost_of loc ?_ hs
+  unfold C26.handle at h
+  simp only [] at h
+  split at h
+  · cases h
+  rename_i hv
+  have hv' := validTarget_gt target (by simpa using hv)
+  split at h
+  · cases h
+  · split at h
+    · cases h
+    · rename_i p _
+      have hl : loc = C26.pathOfTarget target ++ [cSlash] := by
+        unfold C26.serve C26.validate at h
+        have key : ∀ (a : Str) (qs : List C26.Q), (C26.existsFile fs a qs).1 ≠ .redirect loc := by
+          intro a qs
+          unfold C26.existsFile
+          split
+          · simp
+          · split <;> simp
+        split at h
+        · cases h
+        · split at h
+          · split at h
+            · split at h
+              · split at h
+                · cases h
+                · simp only [C26.Resp.redirect.injEq] at h
+                  exact h.symm
+              · exact absurd h (key _ _)
+            · exact absurd h (key _ _)
+          · exact absurd h (key _ _)
+      intro c hc
+      rw [hl] at hc
+      simp only [List.mem_append, List.mem_singleton] at hc
+      rcases hc with hc | hc
+      · exact hv' c ((List.takeWhile_sublist _).subset hc)
+      · subst hc; simp [cSlash]
+
+/-- what `Spec.onSameHost` excludes, spelled out: not scheme-qualified, not protocol-relative -/
+theorem onSameHost_not_offsite (loc : Str) (h : Spec.onSameHost loc = true) :
+    Spec.hasScheme (Spec.browserInput loc) = false ∧ Spec.protocolRelative (Spec.browserInput loc) = false
+      ∧ (Spec.browserInput loc).head? = some 47 := by
+  unfold Spec.onSameHost Spec.offSite at h
+  simp only [Bool.and_eq_true, Bool.not_eq_true', Bool.or_eq_false_iff, beq_iff_eq] at h
+  exact ⟨h.2.1, h.2.2, h.1⟩
+
+theorem vchar_lt (c : Nat) (h : C26.vchar c = true) : c < 0x800 := by
+  simp [C26.vchar] at h
+  omega
+
+/-- **handleDeco_auth_login_url.**  Whole request, no side condition on the target (the request-line grammar bounds its
+characters): whenever `@authenticated` redirects, the Location is the configured login URL, optionally followed by
+`?next=` and percent-encoded text.  (`protocol`/`host` are below U+0800: they come from the connection and a latin-1 header.) -/
+theorem handleDeco_auth_login_url (li : Bool) (login : Str) (sch : Bool) (proto host : Str) (pat : C26.Pat) (m : Method)
+    (target : Str) (st : Nat) (loc : Str) (hp : ∀ c ∈ proto, c < 0x800) (hh : ∀ c ∈ host, c < 0x800)
+    (h : handleDeco (.auth li login sch proto host) pat m target = .redirect st loc) :
+    Spec.loginRedirectOk login loc = true := by
+  unfold handleDeco at h
+  simp only [] at h
+  split at h
+  · cases h
+  rename_i hv
+  have hv' : ∀ c ∈ target, c < 0x800 := by
+    intro c hc
+    have hv2 : C26.validTarget target = true := by simpa using hv
+    simp only [C26.validTarget, Bool.and_eq_true, List.all_eq_true] at hv2
+    exact vchar_lt c (hv2.2 c hc)
+  split at h
+  · cases h
+  · split at h
+    · cases h
+    · refine login_redirect_is_login_url li m login sch target (fullUrl proto host target) st loc hv' ?_ (ofOut_redirect _ _ _ h)
+      intro c hc
+      unfold fullUrl at hc
+      simp only [List.mem_append, List.mem_cons] at hc
+      rcases hc with ((hc | hc) | hc) | hc
+      · exact hp c hc
+      · rcases hc with hc | hc | hc | hc
+        · omega
+        · omega
+        · omega
+        · cases hc
+      · exact hh c hc
+      · exact hv' c hc
 
 /-! ### non-vacuity -/
 
@@ -256,5 +486,16 @@ example : Spec.sameSite [104, 116, 116, 112, 58, 47, 47, 101] = false := by deci
 -- login: "/login" + "?next=" + quote_plus("//e/?a=b") = "%2F%2Fe%2F%3Fa%3Db"
 example : authenticated false .get [47, 108] false [47, 47, 101, 47, 63, 97, 61, 98] [] =
     .redirect 302 ([47, 108, 63, 110, 101, 120, 116, 61] ++ [37, 50, 70, 37, 50, 70, 101, 37, 50, 70, 37, 51, 70, 97, 37, 51, 68, 98]) := by decide
+
+-- the independent yardstick on the classical open-redirect shapes
+example : Spec.onSameHost [47, 102, 111, 111] = true := by decide                      -- "/foo"
+example : Spec.onSameHost [47, 47, 101] = false := by decide                            -- "//e"
+example : Spec.onSameHost [47, 92, 101] = false := by decide                            -- "/\e"
+example : Spec.onSameHost [92, 92, 101] = false := by decide                            -- "\\e"
+example : Spec.offSite [104, 116, 116, 112, 58, 47, 47, 101] = true := by decide        -- "http://e"
+example : Spec.offSite [106, 97, 118, 97, 115, 99, 114, 105, 112, 116, 58, 120] = true := by decide   -- "javascript:x"
+example : Spec.offSite [32, 47, 9, 47, 101] = true := by decide                         -- " /<TAB>/e"
+example : handleDeco .add .all .get [47, 9, 47, 101] = .badRequest := by decide         -- a tab never reaches the decorator
+example : handleDeco .add .all .get [47, 102] = .redirect 301 [47, 102, 47] := by decide
 
 end TornadoModel.C28
